@@ -180,6 +180,7 @@ class State:
         self.def_of = {}           # term id -> S!k variable
         self.fullpairs = []        # (S!k, fully unfolded definition)
         self.sq_of = {}            # id of a sqrt variable -> the term it is the square root of
+        self._exp_cache = []
         self.kappa_zero = True     # treat 1e-100 / nextafter regularisers as 0
 
     def fresh(self, prefix):
